@@ -275,7 +275,7 @@ theorem restRows_structure (p : Part) (out : List Row) (h : restRows p false = s
       Forall₂ (fun n r => ∃ d m, durationTied p.notes n = some d ∧
           maxList ((restsOf p.notes).map rawVoice) = some m ∧
           r = withVoice (mkRow p.maps 0 n d 0 "0" 0 0) n m) (restsOf p.notes) rs := by
-  unfold restRows at h
+  unfold restRows restRowsWith at h
   cases hm : mapM' (restRow p.notes p.maps) (restsOf p.notes) with
   | none => simp [hm] at h
   | some rs0 =>
